@@ -8,6 +8,7 @@ Per generated module set (check/props/schema_gen.py, plus the feature schemas be
           submodule that names its tree by a prefix, also started at nodes inside the trees with the prefix of the
           module whose text wrote the start node; the unprefixed absolute spelling from nodes of the tree and from
           the root entries of its submodules; bad-step variants; relative paths with several "..";
+          paths that leave out the case step below a choice;
           one absolute path string from start nodes of one tree written in different (sub)modules that bind its
           prefix differently; '.' and '..' steps after existing and after missing steps, above the root; rpc/action
           input and output created on demand -- also by 'input/..' --, looked up again, and a step below the fresh
@@ -19,6 +20,9 @@ Per generated module set (check/props/schema_gen.py, plus the feature schemas be
           the module trees have been collected, loads an unrelated module, a rejected text and a missing file WITHOUT
           processing again: every lookup must return what it returned without the late load (positions recovered by
           pointer identity of the tree roots collected before) and the trees must be unchanged.
+  getmodule (implementation only) the same with the tree of one module (usually one that others import) obtained through
+          Modules.GetModule after Process and the other trees through ToEntry: every lookup must return the node of the
+          tree GetModule handed out (positions recovered by pointer identity of that tree's root).
   path    (implementation only) every set's lookups are repeated on a fresh module set in which only some texts are
           parsed by the caller and the others lie on the search path (Modules.AddPath) and are found while the first and
           only Process resolves imports and includes: same results, same trees.
@@ -326,6 +330,24 @@ def queries_for(schema, dump, rnd, budget):
             ans.sort(key=lambda x: x[2] == "-")          # successful lookups first
             for cx, st, w in ans:
                 sq("same-string", (mn, st), path, w, cx)
+    # a step below a choice names a CASE: a path that leaves the case step out names nothing, even when the name is that
+    # of a member of one of the cases (explicit cases named differently from their members)
+    for mn, st, nd in allnodes:
+        for i in range(1, len(st)):
+            cs, parent = index_all.get((mn, st[:i])), index_all.get((mn, st[:i - 1]))
+            if not cs or not parent or cs["kind"] != "Case" or parent["kind"] != "Choice" or st[i][0] != "C":
+                continue
+            if any(c["name"] == st[i][1] for c in parent.get("children") or []):
+                continue                  # a case of that name exists: the shortened path names something else
+            if rnd.random() > 0.5:
+                continue
+            pfx = byname[mn]["prefix"]
+            cut = st[:i - 1] + st[i:]
+            sq("skip-case", (mn, ()), "/" + "/".join(pfx + ":" + step_name(x) for x in cut), "-")
+            sq("skip-case", (mn, st[:i - 1]), "/".join(step_name(x) for x in st[i:]), "-")          # from the choice
+            sq("skip-case", (mn, st[:i]), "../" + "/".join(step_name(x) for x in st[i:]), "-")      # from the case
+            if i >= 2:
+                sq("skip-case", (mn, st[:i - 2]), "/".join(step_name(x) for x in st[i - 2:i - 1] + st[i:]), "-")
     # (f) '.' and '..' are steps, not text: 'x/..' needs x to exist
     for mn in sorted(mods):
         nodes = []
@@ -396,10 +418,11 @@ def path_only(schema, rnd):
     return names - explicit
 
 
-def go_find_case(schema, opts, qs, on_path=()):
+def go_find_case(schema, opts, qs, on_path=(), via_get=None):
     toks = ["find17", opts, str(len(schema))]
     for m in schema:
-        toks += [("@" if m["name"] in on_path else "") + sg.hx(m["name"] + ".yang"), sg.hx(sg.render_module(m))]
+        mark = "@" if m["name"] in on_path else ("!" if m["name"] == via_get else "")
+        toks += [mark + sg.hx(m["name"] + ".yang"), sg.hx(sg.render_module(m))]
     toks.append(str(len(qs)))
     for x in qs:
         mn, st = x["go"]
@@ -508,6 +531,35 @@ def check_batch(res, schemas, rnd, budget, stats):
             r["modules"] = [m for m in r.get("modules") or [] if not m["name"].startswith("zz-late-")]
         if sg.canon_go(json.dumps(lj))[1] != sg.canon_go(pj[2])[1] and bad < 2:
             res.violation("the module trees changed by a late Parse/Read without Process", rep)
+    # ... and with the tree of one module obtained through Modules.GetModule (after Process), the others through ToEntry:
+    # lookups that lead into that module must return the nodes of the tree GetModule handed out
+    pick = []
+    for sc, _, _ in work:
+        imported = sorted({mn for m in sc for _, mn in m["imports"]} & {m["name"] for m in sc if m["belongs"] is None})
+        tops = sorted(m["name"] for m in sc if m["belongs"] is None)
+        pick.append(rnd.choice(imported) if imported and rnd.random() < 0.8 else rnd.choice(tops))
+    getrun = lib.run_go([go_find_case(sc, "-", qs, via_get=g) for (sc, qs, _), g in zip(work, pick)])
+    for (sc, qs, _), pj, g, gline in zip(work, parsed, pick, getrun):
+        if pj is None:
+            continue
+        rep = dict(kind="find17", schema=sc, queries=[dict(x, go=list(x["go"]), ml=list(x["ml"])) for x in qs], via_get=g)
+        if not gline.startswith("{"):
+            res.violation("find17 (GetModule) crashed on the implementation: %s" % gline[:300], rep)
+            continue
+        lj = json.loads(gline)
+        if lj["runs"][-1]["errors"]:
+            res.violation("GetModule(%s) after a clean Process reports errors: %s" % (g, lj["runs"][-1]["errors"][:2]), rep)
+            continue
+        stats["getmodule_sets"] += 1
+        lres = [r.split("|", 1)[1] for r in lj["find"]]
+        bad = 0
+        for x, r0, l in zip(qs, pj[1], lres):
+            if r0 != l and bad < 2:
+                bad += 1
+                res.violation("with the tree of %s taken from GetModule, Find(%r) from %s returned %s; the node of that tree is %s"
+                              % (g, x["path"], x["go"], l, r0), dict(rep, query=dict(x, go=list(x["go"]), ml=list(x["ml"])), impl=l))
+        if sg.canon_go(gline)[1] != sg.canon_go(pj[2])[1] and bad < 2:
+            res.violation("the module trees differ after GetModule(%s)" % g, rep)
     # ... and on a fresh set where only some modules are loaded by the caller and the others are found on the search
     # path while the first (and only) Process resolves imports and includes
     onp = [sorted(path_only(sc, rnd)) for sc, _, _ in work]
@@ -745,7 +797,7 @@ def run(res, tier, seed, proof):
     rnd = random.Random(seed)
     n = 140 if tier == "quick" else 2500
     budget = 330 if tier == "quick" else 600
-    stats = dict(status={}, impl_lookups=0, features={}, queries={}, tied=0, revision_sets=0, revision_lookups=0, late_sets=0, path_sets=0)
+    stats = dict(status={}, impl_lookups=0, features={}, queries={}, tied=0, revision_sets=0, revision_lookups=0, late_sets=0, path_sets=0, getmodule_sets=0)
     schemas = feature_schemas() + gen_schemas(rnd, n)
     for i in range(0, len(schemas), 400):
         check_batch(res, schemas[i:i + 400], rnd, budget, stats)
@@ -761,7 +813,7 @@ def run(res, tier, seed, proof):
         exhaustive=False, module_sets=len(schemas), clean=clean, clean_ratio=round(clean / max(1, len(schemas)), 3),
         distribution=dict(status=stats["status"], features=stats["features"], queries=stats["queries"],
                           impl_pointer_lookups=stats["impl_lookups"], tied_sets=stats["tied"],
-                          late_load_sets=stats["late_sets"], search_path_sets=stats["path_sets"], pinned_revision_sets=stats["revision_sets"], pinned_revision_lookups=stats["revision_lookups"]),
+                          late_load_sets=stats["late_sets"], search_path_sets=stats["path_sets"], getmodule_sets=stats["getmodule_sets"], pinned_revision_sets=stats["revision_sets"], pinned_revision_lookups=stats["revision_lookups"]),
         samples=[sg.render_module(m)[:300] for m in schemas[2][:2]],
     )
     if clean * 10 < len(schemas) * 6:
@@ -809,6 +861,15 @@ def replay(rep, res):
             for x, r1, r2 in zip(qs, a or [], b or []):
                 if r1 != r2:
                     print("on the search path %s: query %s from %s: parsed=%s path=%s" % (rep["on_path"], x["path"], x["go"], r1, r2))
+                    rc = 1
+            if a is None or b is None or len(a) != len(b):
+                rc = 1
+        if rep.get("via_get"):
+            g0 = lib.run_go([go_find_case(sc, "-", qs), go_find_case(sc, "-", qs, via_get=rep["via_get"])])
+            a, b = (json.loads(x)["find"] if x.startswith("{") else None for x in g0)
+            for x, r1, r2 in zip(qs, a or [], b or []):
+                if r1 != r2:
+                    print("GetModule(%s): query %s from %s: ToEntry tree=%s GetModule tree=%s" % (rep["via_get"], x["path"], x["go"], r1, r2))
                     rc = 1
             if a is None or b is None or len(a) != len(b):
                 rc = 1
